@@ -204,10 +204,13 @@ def pbo_pack(prefix, entries):
 
 # ---------------------------------------------------------------- generators
 POOL = ["a.sqf", "b.sqf", "c.sqf", "sub/a.sqf", "sub/b.sqf", "sub/deep/c.sqf", "y/a.sqf", "y/b.sqf", "y/z/w/a.sqf",
-        "cba/x.sqf", "zz/a.sqf", "sub/y/a.sqf", "arch.pbo", "q/a.sqf", "x/a.sqf", "x/y/b.sqf"]
+        "cba/x.sqf", "zz/a.sqf", "sub/y/a.sqf", "arch.pbo", "q/a.sqf", "x/a.sqf", "x/y/b.sqf",
+        # names that differ from others only in letter case: different directories, different virtual prefixes
+        "Sub/a.sqf", "X/a.sqf", "Y/b.sqf", "A.sqf"]
 PHYS = [B + "/r1", B + "/r2", B + "/r3", B + "/r1/sub", B + "/r2/y", B + "/r1/", "\\tmp\\@@\\r2", B + "/r1/../r1", B + "//r2",
         "r1", "r3/", B, B + "/missing", B + "/r1/a.sqf", B + "/r2/./y", "./r2"]
-VIRT = ["/x", "\\x", "x", "/x/", "/x/y", "\\x\\y\\", "/", "/x//y", "/x/y/z/w", "/q", "/x/../q", "", "/x/sub", "/cba/x", "\\"]
+VIRT = ["/x", "\\x", "x", "/x/", "/x/y", "\\x\\y\\", "/", "/x//y", "/x/y/z/w", "/q", "/x/../q", "", "/x/sub", "/cba/x", "\\",
+        "/X", "/x/Y", "/X/y", "/Q", "/x/SUB", "/x/Sub"]
 
 
 def rand_tree(rng):
